@@ -252,7 +252,7 @@ Section Propagation.
         destruct a1; auto with notok.
         skip.
         match goal with |- context [match ?l ++ ?r with _ => _ end] => destruct (l ++ r) end; auto with notok.
-        skip. skip. here.
+        skip. skip. skip. skip. here.
         apply (iterM_notok_j J HJ); [intros; prs| |assumption]. intros s1 W1. cbn [snd]. here. now apply IHe.
       + (* XColl *)
         cbn [Ctx.plug_e Tc.afix astep r_expr]. unfold expr_body. here.
